@@ -49,8 +49,8 @@ CLAIMS['C17'] = {
   'note': "Thorough tier additionally proves a contract on the whole body of update_extended_Lagrangian (12 min): coupling force (-k/2) d/dx_ext dist2(x_ext, x) over the variable's own metric, atoms feel minus that force times the time-step factor, reported total force selection, saved state for undoing a repeated step, coupling energy. The integrator's arithmetic and reflection bounds are n/d.",
   'design_ref': '§4 C17'}
 CLAIMS['C19'] = {
-  'text': "Contracts on the verbatim bodies of colvarmodule::write_traj_files (a data line exactly on absolute steps that are multiples of the frequency, labels at segment start / on request / every 1000 lines, flag cleared), of colvar::write_traj_label / write_traj (under every combination of output flags the data line carries exactly the columns the label line announces, group by group in the same order, and each column is the quantity its group names), of the walls restraint energy (written E_ column: constant of the wall actually exceeded) and of the accumulated-work update.",
-  'note': "write_traj_files is a bounded stand-in (32-bit steps, frequency 5, restart frequency 7: symbolic % is undecidable in practice); bias-level columns, running averages and correlation functions are n/d.",
+  'text': "Contracts on the verbatim bodies of colvarmodule::write_traj_files (a data line exactly on absolute steps that are multiples of the frequency, labels at segment start / on request / every 1000 lines, flag cleared), of colvar::write_traj_label / write_traj (under every combination of output flags the data line carries exactly the columns the label line announces, group by group in the same order, and each column is the quantity its group names), of the running average and variance of colvar::calc_runave (mean over exactly runAveLength values, variance from deviations about that mean, divisor L-1; window lengths 2 and 3), of the walls restraint energy (written E_ column: constant of the wall actually exceeded) and of the accumulated-work update.",
+  'note': "write_traj_files is a bounded stand-in (32-bit steps, frequency 5, restart frequency 7: symbolic % is undecidable in practice); bias-level columns and correlation functions are n/d.",
   'design_ref': '§4 C19'}
 CLAIMS['C01'] = {
   'text': "The propagation chain between energy and force, as contracts on verbatim bodies with symbolic reals: harmonic and wall restraint forces are the hand derivative of their energies over the same metric and prefactor; colvarbias::communicate_forces hands each variable its force exactly once with the time-step factor; colvar::update_forces_energy sums bias forces, Jacobian correction and actual-value forces as documented.",
